@@ -39,6 +39,7 @@ NAMED1 = {
     "tail": [[0.0], [1.0], [4096.0]],
     "starve": [[-3.0], [-3.25], [-2.75], [1e3], [1.0]],
     "nondyadic": [[0.1], [1.0 / 3.0], [0.7]],
+    "ints": [[400.0], [250.0], [300.0], [-380.0]],
 }
 NAMED2 = {
     "blobs": [[0.0, 0.0], [1.0, 0.5], [0.5, 1.0], [10.0, 10.0], [11.0, 10.5], [10.5, 11.0]],
@@ -46,6 +47,7 @@ NAMED2 = {
     "dups": [[2.5, 1.0], [2.5, 1.0], [2.5, 1.0]],
     "tail": [[0.0, 0.0], [64.0, -4096.0], [1.0, 2.5]],
     "nondyadic": [[0.1, 1.0 / 3.0], [0.7, 0.2], [3.3, 2.2]],
+    "ints": [[400.0, -100.0], [250.0, 300.0], [-380.0, 2.0]],
 }
 
 
@@ -187,6 +189,13 @@ def run_case(case):
     if not c.viol:
         for p, t_ in zip(parts, tr):
             _same(c, _fields(t_), _fields(m.acc_stats(p)), "transform", f"transform element with {len(p)} rows", tags, scale)
+    # the same values presented in other dtypes (integer-valued data sets only): results must not depend on the container type
+    if np.all(X == np.round(X)) and np.abs(X).max() < 2**15:
+        for dt in ("int16", "int32", "int64", "float32"):
+            sd_ = m.acc_stats(X.astype(dt))
+            _same(c, _fields(sd_), got, "dtype", f"input dtype {dt}", dict(tags, dtype=dt), scale)
+            c.transitions += 1
+        c.count("dtype_variants", 4)
     # splits
     blocksets = [[list(range(sum(comp[:i]), sum(comp[: i + 1]))) for i in range(len(comp))] for comp in compositions(n)]
     if n <= 4:
@@ -214,6 +223,20 @@ def run_case(case):
         c.check([_snap(p) for p in cp[1:]] == snaps[1:], "iadd_rhs", "+= modified its right operand", tags)
         acc3 = functools.reduce(operator.iadd, [copy.deepcopy(p) for p in pieces])
         _same(c, _fields(acc3), got, "split_iadd", f"blocks {blocks} reduce(iadd)", tags, scale)
+        # accumulate into an initially empty container; afterwards every block must still be what it was
+        from bob.learn.em import GMMStats
+
+        cp4 = [copy.deepcopy(p) for p in pieces]
+        acc4 = GMMStats(C, D)
+        for p in cp4:
+            acc4 += p
+        _same(c, _fields(acc4), got, "split_iadd", f"blocks {blocks} added with += into an empty GMMStats", tags, scale)
+        c.check([_snap(p) for p in cp4] == snaps, "iadd_rhs", f"+= into an empty accumulator modified a right operand (blocks {blocks})", tags)
+        acc5 = GMMStats(C, D)
+        for p in pieces:
+            acc5 = acc5 + p
+        _same(c, _fields(acc5), got, "split_add", f"blocks {blocks} added with + onto an empty GMMStats", tags, scale)
+        c.check([_snap(p) for p in pieces] == snaps, "add_pure", f"+ onto an empty accumulator modified an operand (blocks {blocks})", tags)
         nsplit += 1
         if c.viol:
             break
